@@ -388,8 +388,9 @@ def c04_jobs(tier):
 
 
 def c17_jobs(tier):
-    return ([J("sml", "ZZ_C17_noninterference", op=op) for op in range(12)] + [J("sml", "ZZ_C17_results", which=w) for w in range(4)]
-            + [J("sml", "ZZ_C17_bare", order=o) for o in range(4)] + [J("sml", "ZZ_C17_history", b=b) for b in range(12)])
+    D = dict(call_depth=6000, fuel=400_000_000)
+    return ([J("sml", "ZZ_C17_noninterference", op=op, **D) for op in range(13)] + [J("sml", "ZZ_C17_results", which=w) for w in range(4)]
+            + [J("sml", "ZZ_C17_bare", order=o) for o in range(4)] + [J("sml", "ZZ_C17_history", b=b, **D) for b in range(13)])
 
 
 def c12_jobs(tier):
@@ -442,14 +443,21 @@ def c13_jobs(tier):
         if tier != "quick":
             sizes += [65535 // w, 65535 // w + 1]
         for n in sizes:
-            jobs.append(J("ast", "ZZ_C13_factory", typ=t, n=n, **BIG))
+            jobs.append(J("ast", "ZZ_C13_factory", typ=t, n=n, via=0, **BIG))
+        if t == 3:
+            # ASCII: first size beyond the limit through both ways to make the item (factory, fill of an unbounded variable)
+            jobs.append(J("ast", "ZZ_C13_factory", typ=t, n=16777216, via=0, heavy=1, **BIG))
+            jobs.append(J("ast", "ZZ_C13_factory", typ=t, n=16777216, via=1, heavy=1, **BIG))
+            jobs.append(J("ast", "ZZ_C13_factory", typ=t, n=300, via=1, **BIG))
     if tier != "quick":
         # the real limit: first size beyond it for all 14 formats (the factory refuses at its first statement),
         # the largest constructible size for the 4- and 8-byte formats and ASCII (2M / 4M / 16M elements)
         for t in range(14):
-            jobs.append(J("ast", "ZZ_C13_factory", typ=t, n=16777215 // TYPE_W[t] + 1, heavy=1, **BIG))
+            if t != 3:
+                jobs.append(J("ast", "ZZ_C13_factory", typ=t, n=16777215 // TYPE_W[t] + 1, via=0, heavy=1, **BIG))
         for t in (4, 8, 10, 7, 9, 13, 3):
-            jobs.append(J("ast", "ZZ_C13_factory", typ=t, n=16777215 // TYPE_W[t], heavy=1, **BIG))
+            jobs.append(J("ast", "ZZ_C13_factory", typ=t, n=16777215 // TYPE_W[t], via=0, heavy=1, **BIG))
+        jobs.append(J("ast", "ZZ_C13_factory", typ=3, n=16777215, via=1, heavy=1, **BIG))
     # decoder read-back of length fields (harnesses shared with C03): all length bytes symbolic with
     # 256+ bytes present, and length fields of different widths in sequence
     for kind in (3, 1):
